@@ -30,6 +30,13 @@ var Fixed = []string{
 	"echo é 中 $é", "x = y", "a=b c", "fn f {|a| put $a }\nf 1 | each {|x| echo $x }", "if $t { a } else { b }",
 	"put [&a=[&b=c]][a][b]", "a <b", "a<b", "e:ls -l --color=auto", "put 'x'\"y\"$z(w)[v]{u}", "a\r\nb", "a;;b", " a ", "\n\na\n\n",
 	"var x = [(put a) ?(fail)]", "put \"a\nb\" 'c\nd'",
+	// every escape form with values across its range; all cuts inside an escape
+	`echo "\U000D8000"`, `echo "\U000DFFFF"`, `echo "\U0010FFFF"`, `echo "\U00000000"`, `echo "\U000dbcde"`,
+	`echo "\uD7FF\uE000\uFFFF\u0000"`, `echo "\udabc"`, `echo "\x00\xFF\x7f\xaB"`, `echo "\000\377\177\012"`,
+	`echo "\c?\c@\c_\^?\^@\^_\cA"`, `echo "\a\b\f\n\r\t\v\e\\\""`, `put $"\U000D8000"`, `put a"\U000DABCD"b`,
+	// cuts inside the other multi-character tokens
+	"put $ns:var: $e:x~ $@rest $x[0][1]", "cmd &key=val &k2= &k3=[a]", "cmd >&2 2>&1 <>f >>g 3<h", "a # comment text\nb # more",
+	"a ^\n b ^\r\n c", "put ?(x) (y) [z] [&k=v] {a,b} { w } {|p| q }", "put a[1][2] $m[k][l]", "e:cmd ~/p ~u/q **/*.go ??",
 }
 
 type pdesc struct {
@@ -122,7 +129,33 @@ func run(c *reg.Ctx) {
 	if c.Tier == "thorough" {
 		maxLen = 64
 	}
+	// token fragments whose inside is worth cutting
+	frags := []string{"$ns:var:", "$e:f~", "$@r", "&key=val", "&k=", ">&2", "2>&1", "<>f", ">>g", "# c\n", "^\n", "^\r\n", "?(a)", "(a)", "[a]",
+		"[&k=v]", "{a,b}", "{ a }", "{|p| q }", "x[1][2]", "'q''r'", "**", "~/p", "a|b", "a;b", "&"}
 	for i := 0; i < c.N; i++ {
+		if k := r.Intn(10); k < 2 {
+			// "escapes": a command with double-quoted strings made of 1-3 escapes
+			s := r.Intn(2) == 0
+			var sb []byte
+			sb = append(sb, "e "...)
+			if s {
+				sb = append(sb, "$"...)
+			}
+			sb = append(sb, '"')
+			for j := 1 + r.Intn(3); j > 0; j-- {
+				sb = append(sb, c01.Escape(r)...)
+			}
+			sb = append(sb, '"')
+			rn.emit("escapes", string(sb))
+			continue
+		} else if k == 2 {
+			s := "c"
+			for j := 1 + r.Intn(3); j > 0; j-- {
+				s += " " + frags[r.Intn(len(frags))]
+			}
+			rn.emit("tokens", s)
+			continue
+		}
 		if r.Intn(10) == 0 {
 			s := c01.Mutate(r, c01.GenProgram(r, 1))
 			if len(s) <= maxLen {
